@@ -114,20 +114,32 @@ Definition req_ok (t : Z * Z * Z) : bool :=
   (Z.eqb v 0 || Z.eqb v 1) && (Z.eqb l (-1) || Z.eqb l v) &&
   (Z.eqb a 0 || Z.eqb a 1 || Z.eqb a 2) &&
   implb (Z.eqb a 1) (Z.eqb v 1) && implb (Z.eqb a 2) (Z.eqb v 0).
-Fixpoint pairs_ok (obs : list Z) : bool :=   (* (acknowledgement, visibility) of the closing writes, then 8 flags *)
-  match obs with
-  | [alive; hits; started; inv0; cns; again; api; wf] => Z.eqb inv0 1 && Z.eqb cns 1 && Z.eqb again 1 && Z.eqb api 1
-  | a :: v :: rest => req_ok (a, v, v) && pairs_ok rest
-  | _ => false
+Fixpoint pairs (n : nat) (obs : list Z) : option (list (Z * Z) * list Z) :=
+  match n with
+  | O => Some ([], obs)
+  | S m => match obs with
+           | a :: v :: rest => match pairs m rest with
+                               | Some (ps, tl) => Some ((a, v) :: ps, tl)
+                               | None => None
+                               end
+           | _ => None
+           end
   end.
 Definition spec_C13 (c : c13case) (obs : list Z) : bool :=
   match c with
   | CSkip => true
   | CRestart init batches script f =>
       (* every request of the (acknowledged) workload is still entirely visible, whatever happened during the start *)
-      forallb (fun v => Z.eqb v 1) (firstn (length (concat batches)) obs) &&
-      Nat.leb (length (concat batches)) (length obs) &&
-      pairs_ok (skipn (length (concat batches)) obs)
+      let nb := length (concat batches) in
+      let rest := skipn nb obs in
+      forallb (fun v => Z.eqb v 1) (firstn nb obs) && Nat.leb nb (length obs) &&
+      (* then (acknowledgement, visibility) of the requests sent after the start (the closing write), then 8 flags *)
+      match pairs (Nat.div2 (length rest - 8)) rest with
+      | Some (ps, [alive; hits; started; inv0; cns; again; api; wf]) =>
+          forallb (fun p : Z * Z => req_ok (fst p, snd p, snd p)) ps &&
+          Z.eqb inv0 1 && Z.eqb cns 1 && Z.eqb again 1 && Z.eqb api 1
+      | _ => false
+      end
   | CRun init batches unsent f =>
       match triples (length (concat batches) + length unsent) obs with
       | Some (ts, [alive; hits; inv0; cns; again; api; svc; wf]) =>
@@ -178,6 +190,11 @@ Definition wf_case (c : c13case) : bool :=
       forallb (covers code_skeleton) rs &&
       forallb req_shape (concat batches) &&
       negb (k2 false (concat batches)) &&
+      (* the start: awaited writes carry no row operation of the model, nothing of it is a room mutation,
+         a request with row operations is not a recompute / optimize *)
+      forallb (fun s => match s with SAwait b => forallb (fun r => match req_ops r with [] => true | _ => false end) b | _ => true end) script &&
+      forallb (fun r => match r_auth r with ANone => true | _ => false end) (script_reqs script) &&
+      forallb (fun r => match req_ops r with [] => true | _ => req_shape r end) (script_reqs script) &&
       loginv_b d0
   | CRun init batches unsent f =>
       let d0 := init_disk init in
